@@ -260,16 +260,37 @@ def entry_for(k, mask):
     return kind, girgen.RecordN(name, gtype=gt), gt, None
 
 
-def make_doc(mask, ns='Test', c_prefix=None):
-    """-> (Doc, info) where info lists per entry (name bytes, kind, gtype name bytes|None, domain bytes|None)"""
+XR_NAME = b'xr'        # local record that carries the cross-namespace references (not an alphabet name)
+
+
+def xref_targets(comp):
+    """alphabet names that are TYPES (enum/record kinds) of the companion namespace with key set `comp`:
+    up to four of them, spread over the set"""
+    cand = [k for k in bits(comp) if KINDS[(k + comp) % len(KINDS)] != 'const']
+    if len(cand) > 4:
+        cand = [cand[0], cand[len(cand) // 3], cand[2 * len(cand) // 3], cand[-1]]
+    return cand
+
+
+def make_doc(mask, ns='Test', c_prefix=None, xrefs=()):
+    """-> (Doc, info) where info lists per entry (name bytes, kind, gtype name bytes|None, domain bytes|None).
+    xrefs: alphabet indices of types of namespace Other that a local record `xr` refers to; each creates a
+    NON-LOCAL directory entry carrying that bare name behind the local entries."""
     ents, info = [], []
     for k in bits(mask):
         kind, e, gt, dom = entry_for(k, mask)
         ents.append(e)
         info.append((TL_ALPHA[k], kind.split('+')[0], GTN[k] if gt else None, DOM[k] if dom else None))
+    includes = []
+    if xrefs:
+        fields = [girgen.FieldN('f%d' % k, girgen.I('Other.' + TL_ALPHA[k].decode(), 'C' + TL_ALPHA[k].decode()))
+                  for k in xrefs]
+        ents.append(girgen.RecordN(XR_NAME.decode(), fields=fields))
+        info.append((XR_NAME, 'record', None, None))
+        includes = [('Other', '1.0')]
     if c_prefix is None:
         c_prefix = PREFIXES[mask % len(PREFIXES)]
-    return girgen.Doc(ns, '1.0', ents, c_prefix=c_prefix, symbol_prefix='t'), info
+    return girgen.Doc(ns, '1.0', ents, includes=includes, c_prefix=c_prefix, symbol_prefix='t'), info
 
 
 def read_directory(data):
@@ -305,7 +326,11 @@ def read_directory(data):
             break
         secs.append((sid, soff))
         p += 8
-    return {'n_entries': n_entries, 'n_local': n_local, 'entries': ents, 'sections': secs,
+    xrefs = []
+    for i in range(n_local, n_entries):
+        bt, flags, name, off = struct.unpack_from('<HHII', data, directory + i * entry_size)
+        xrefs.append((cstr(name), cstr(off), flags & 1))
+    return {'n_entries': n_entries, 'n_local': n_local, 'entries': ents, 'sections': secs, 'xrefs': xrefs,
             'c_prefix': cstr(struct.unpack_from('<I', data, 56)[0])}
 
 
@@ -335,18 +360,29 @@ class TLCase(object):
     """One typelib experiment: slot 0 = namespace Test with key set `mask`; optionally slot 1 = namespace
     Other with the complementary key set."""
 
+    LOADS = ('eager', 'lazy', 'lazy-then-eager')
+
     def __init__(self, mask, pair):
         self.mask, self.pair = mask, pair
-        self.docs = [make_doc(mask, 'Test')]
         comp = ((1 << NA) - 1) & ~mask
+        # two of three paired cases: Test refers to types of Other whose names are alphabet names ABSENT from
+        # Test (non-local directory entries with those bare names follow the local ones)
+        self.xrefs = xref_targets(comp) if (pair and comp and mask % 3 != 0) else []
+        self.docs = [make_doc(mask, 'Test', xrefs=self.xrefs)]
         if pair and comp:
             self.docs.append(make_doc(comp, 'Other', c_prefix='T'))
         self.ns = [b'Test', b'Other']
+        self.load = self.LOADS[(mask // 3) % 3]
         self.data = []
         self.dirs = []
 
     def key(self):
         return 'mask=0x%04x%s' % (self.mask, '+pair' if len(self.docs) > 1 else '')
+
+    def describe(self):
+        return {'case': self.key(), 'load_sequence': self.load, 'c_prefix': self.docs[0][0].c_prefix,
+                'entries': [(show(n), k, show(g) if g else None, show(e) if e else None) for n, k, g, e in self.docs[0][1]],
+                'xrefs_to_Other': [show(TL_ALPHA[k]) for k in self.xrefs]}
 
     def case(self):
         return {'kind': 'typelib', 'mask': self.mask, 'pair': self.pair}
@@ -359,9 +395,9 @@ def tl_probes():
 _BLOCKS = {}
 
 
-def _block(kind, s, nprobes, gprobes, eprobes):
+def _block(kind, s, nprobes, gprobes, eprobes, phase='after'):
     """cached (command text, plan template) of the probe menu: the same for every case of a worker"""
-    key = (kind, s)
+    key = (kind, s, phase)
     if key not in _BLOCKS:
         lines, tmpl = [], []
         if kind == 'Y':
@@ -372,22 +408,26 @@ def _block(kind, s, nprobes, gprobes, eprobes):
         else:
             for p in nprobes:
                 lines.append('N %d %s' % (s, hx(p)))
-                tmpl.append(('N', s, p, 'after'))
+                tmpl.append(('N', s, p, phase))
             for g in gprobes:
                 lines.append('G %d %s' % (s, hx(g)))
-                tmpl.append(('G', s, g, 'after'))
+                tmpl.append(('G', s, g, phase))
                 if len(g) <= 8:      # the prefix accelerator only looks at the head of the name; unjudged anyway
                     lines.append('P %d %s' % (s, hx(g)))
                     tmpl.append(('P', s, g))
             for e in eprobes:
                 lines.append('E %d %s' % (s, hx(e)))
-                tmpl.append(('E', s, e, 'after'))
+                tmpl.append(('E', s, e, phase))
         _BLOCKS[key] = ('\n'.join(lines), tmpl)
     return _BLOCKS[key]
 
 
 def build_commands(cases, paths, nprobes, gprobes, eprobes):
-    """-> (command text chunks, plan) where plan[i] describes what output line i answers"""
+    """-> (command text chunks, plan) where plan[i] describes what output line i answers.
+    Load sequences (case.load):
+      eager            probe keys (nothing loaded) . load . full probe menu
+      lazy             probe keys . load with G_IREPOSITORY_LOAD_FLAG_LAZY . full probe menu
+      lazy-then-eager  probe keys . lazy load . probe every member key . load again without the flag . full menu"""
     cmds, plan = [], []
 
     def add(c, what):
@@ -402,18 +442,33 @@ def build_commands(cases, paths, nprobes, gprobes, eprobes):
         nslots = len(case.docs)
         for s in range(nslots):
             add('T %d %s %s' % (s, case.ns[s].decode(), paths[ci][s]), ('T', ci, s))
+
+        def member_probes(phase, names):
+            for s in range(nslots):
+                for (n, _k, gt, dom) in case.docs[s][1]:
+                    if names:
+                        add('N %d %s' % (s, hx(n)), ('N', ci, s, n, phase))
+                    if gt:
+                        add('G %d %s' % (s, hx(gt)), ('G', ci, s, gt, phase))
+                    if dom:
+                        add('E %d %s' % (s, hx(dom)), ('E', ci, s, dom, phase))
+
         # before anything is loaded nothing can be found at repository level (and the negative
-        # cache this fills must not survive the load)
+        # cache this fills must not survive the load, lazy or not)
+        member_probes('before', False)
+        final = 'after'
+        if case.load != 'eager':
+            for s in reversed(range(nslots)):
+                add('L %d 1' % s, ('L', ci, s))
+            final = 'lazy'
+        if case.load == 'lazy-then-eager':
+            member_probes('lazy', True)
+            final = 'after'
+        if case.load != 'lazy':
+            for s in reversed(range(nslots)):     # Other first: Test may depend on it
+                add('L %d' % s, ('L', ci, s))
         for s in range(nslots):
-            for (_n, _k, gt, dom) in case.docs[s][1]:
-                if gt:
-                    add('G %d %s' % (s, hx(gt)), ('G', ci, s, gt, 'before'))
-                if dom:
-                    add('E %d %s' % (s, hx(dom)), ('E', ci, s, dom, 'before'))
-        for s in reversed(range(nslots)):
-            add('L %d' % s, ('L', ci, s))
-        for s in range(nslots):
-            text, tmpl = _block('probes', s, nprobes, gprobes, eprobes)
+            text, tmpl = _block('probes', s, nprobes, gprobes, eprobes, final)
             cmds.append(text)
             plan.extend([(e[0], ci) + e[1:] for e in tmpl])
     return cmds, plan
@@ -424,15 +479,18 @@ def judge_typelib_output(cases, lines, plan, part, counts):
     if len(lines) != len(plan) + 1 or lines[-1] != 'END':
         raise HarnessBroken('typelib driver: %d answers for %d commands' % (len(lines), len(plan)))
     bad = {}
+    lazy = [False]
 
     def flag(ci, kind, text):
-        bad.setdefault(ci, []).append((kind, text))
+        # disagreements that show while a namespace is only lazily registered get their own key family
+        bad.setdefault(ci, []).append((('lazy-' if lazy[0] else '') + kind, ('[lazily loaded] ' if lazy[0] else '') + text))
 
     for line, what in zip(lines, plan):
         t = line.split()
         if t[0] != what[0]:
             raise HarnessBroken('typelib driver out of step: %r for %r' % (line, what))
         op = what[0]
+        lazy[0] = len(what) > 4 and what[4] == 'lazy'
         if op == 'Y':
             if t[1] != '1':
                 raise HarnessBroken('could not register GType %r' % what[1])
@@ -525,6 +583,8 @@ def judge_typelib_output(cases, lines, plan, part, counts):
                      % (label, fn, show(probe), sh(got), rexp['blob_type'], rexp['offset'], show(rexp['name']), rns.decode()))
         if exp is not None or rexp is not None:
             counts['must_found'] += 1
+        if op == 'N' and s == 0 and case.xrefs and any(probe == TL_ALPHA[k] for k in case.xrefs):
+            counts['xref'] += 1
         part.outcome((op, phase, exp is not None, rexp is not None, t[1] != '-', t[3] not in ('-', 'na')))
     return bad
 
@@ -535,20 +595,25 @@ def compile_case(b, case, wd, tag):
     case.data, case.dirs = [], []
     sub = os.path.join(wd, tag)          # the compiler insists on <namespace>-<version>.gir
     os.makedirs(sub, exist_ok=True)
-    for s, (doc, info) in enumerate(case.docs):
+    case.data, case.dirs, paths = [None] * len(case.docs), [None] * len(case.docs), [None] * len(case.docs)
+    for s in reversed(range(len(case.docs))):        # Other first: Test may <include> it
+        doc, info = case.docs[s]
         name = '%s-1.0' % doc.ns
-        rc, err, data = tools.compile_gir(b, doc.xml(), sub, name=name)
+        rc, err, data = tools.compile_gir(b, doc.xml(), sub, name=name, includedirs=[sub])
         if rc != 0 or data is None:
             return None, 'g-ir-compiler exit %d on a GIR with entries %s: %s' % (
                 rc, [show(x[0]) for x in info], err.strip()[-300:])
         d = read_directory(data)
         names = [e['name'] for e in d['entries']]
-        if sorted(names) != sorted(x[0] for x in info) or d['n_entries'] != d['n_local']:
+        if sorted(names) != sorted(x[0] for x in info):
             return None, 'directory names %r differ from the GIR entries %r' % (
                 [show(n) for n in names], [show(x[0]) for x in info])
-        case.data.append(data)
-        case.dirs.append(d)
-        paths.append(os.path.join(sub, name + '.typelib'))
+        want = sorted((TL_ALPHA[k], b'Other', 0) for k in case.xrefs) if s == 0 else []
+        if sorted(d['xrefs']) != want:
+            return None, 'non-local directory entries %r, the GIR refers to %r' % (d['xrefs'], want)
+        case.data[s] = data
+        case.dirs[s] = d
+        paths[s] = os.path.join(sub, name + '.typelib')
     return paths, None
 
 
@@ -582,22 +647,29 @@ def run_cases(b, drv, cases, wd, part, probes3, bc=None):
         for c in ok_cases:
             run_cases(b, drv, [TLCase(c.mask, c.pair)], wd, part, probes3, bc)
         return
-    counts = {'lookups': 0, 'unspecified': 0, 'na': 0, 'must_found': 0}
+    counts = {'lookups': 0, 'unspecified': 0, 'na': 0, 'must_found': 0, 'xref': 0}
     bad = judge_typelib_output(ok_cases, out.decode('ascii', 'replace').splitlines(), plan, part, counts)
     part.add(evaluations=counts['lookups'] + counts['unspecified'], lookups_typelib=counts['lookups'],
              unspecified=counts['unspecified'], prefix_probes_unjudged=counts['unspecified'],
-             find_by_gtype_skipped_no_registrable_name=counts['na'])
+             find_by_gtype_skipped_no_registrable_name=counts['na'],
+             probes_of_names_present_only_as_nonlocal_xref=counts['xref'])
     for ci, case in enumerate(ok_cases):
         part.add(states=1, transitions=1, traces_validated_against_impl=1, typelibs_compiled_and_probed=len(case.docs))
         part.nontrivial('T' + case.key())
         part.outcome(('index-present', tuple(getattr(case, 'has_index', ()))))
         if not all(getattr(case, 'has_index', [0])):
             part.add(typelibs_without_index=1)
+        hi = tuple(getattr(case, 'has_index', ()))
+        part.outcome(('load', case.load, bool(case.xrefs), hi))
+        part.add(**{'typelib_cases_load_' + case.load.replace('-', '_'): 1})
+        if case.xrefs:
+            part.add(typelib_cases_with_xrefs=1)
+            if hi and not hi[0]:
+                part.add(typelib_cases_with_xrefs_and_no_index=1)
         if case.mask % 397 == 3:
-            part.sample({'explorer': 'typelib', 'case': case.key(),
-                         'entries': [(show(n), k, show(g) if g else None, show(e) if e else None)
-                                     for n, k, g, e in case.docs[0][1]],
-                         'c_prefix': case.docs[0][0].c_prefix, 'has_index': getattr(case, 'has_index', None)})
+            d = case.describe()
+            d.update(explorer='typelib', has_index=list(hi))
+            part.sample(d)
         seen = set()
         for kind, text in bad.get(ci, ()):
             if kind in seen:
@@ -990,8 +1062,7 @@ def replay(ctx, case):
         wd = tools.workdir('c14r')
         try:
             c = TLCase(case['mask'], case.get('pair', True))
-            print('namespace Test: c_prefix=%r entries=%s' % (c.docs[0][0].c_prefix,
-                  [(show(n), k, show(g) if g else None, show(e) if e else None) for n, k, g, e in c.docs[0][1]]))
+            print('namespace Test:', c.describe())
             run_cases(b, drv, [c], wd, part, tl_probes())
         finally:
             tools.cleanup(wd)
